@@ -515,6 +515,14 @@ func (p *plugin) synchronize(ctx context.Context, pods []*PodSandbox, containers
 				return nil, err
 			}
 
+			// Never try to send more than what we have left.
+			if podsPerMsg > len(podsToSend) {
+				podsPerMsg = len(podsToSend)
+			}
+			if ctrsPerMsg > len(ctrsToSend) {
+				ctrsPerMsg = len(ctrsToSend)
+			}
+
 			log.Debugf(ctx, "oversized message, retrying in smaller chunks")
 		}
 	}
@@ -552,8 +560,18 @@ func recalcObjsPerSyncMsg(pods, ctrs int, err error) (int, int, error) {
 		factor = 0.9
 	}
 
-	pods = int(float64(pods) * factor)
-	ctrs = int(float64(ctrs) * factor)
+	// Scale both counts down, but never scale a non-zero count to zero. Otherwise
+	// we could end up sending messages which make no progress on one of the lists
+	// (or none at all, once the other list has been exhausted).
+	scale := func(cnt int) int {
+		if scaled := int(float64(cnt) * factor); scaled > 0 || cnt == 0 {
+			return scaled
+		}
+		return 1
+	}
+
+	pods = scale(pods)
+	ctrs = scale(ctrs)
 
 	if pods+ctrs < minObjsPerMsg {
 		pods = minObjsPerMsg / 2
